@@ -6,6 +6,7 @@ import (
 	"bytes"
 	"encoding/json"
 	"fmt"
+	"os"
 	"sort"
 	"testing"
 
@@ -69,6 +70,45 @@ func verifyState(prop string, tr *iavl.MutableTree, img *dbm.MemDB, skip bool, m
 		if err := auditFast(DumpDB(img), m.vers[m.latest], m.latest); err != nil {
 			return &Violation{Prop: prop, Obs: tag + "audit.fast", Msg: err.Error()}
 		}
+	}
+	return nil
+}
+
+// verifyStateLight: for large states: hash, full iteration against the model, fast == walk for a sample of keys.
+func verifyStateLight(prop string, tr *iavl.MutableTree, m modelSnap, tag string) *Violation {
+	for v, vs := range m.vers {
+		it, err := tr.GetImmutable(v)
+		if err != nil {
+			return &Violation{Prop: prop, Obs: tag + "getimmutable", Msg: fmt.Sprintf("GetImmutable(%d): %v", v, err)}
+		}
+		if h := it.Hash(); !bytes.Equal(h, rhash(vs.Root, 0, false)) {
+			return &Violation{Prop: prop, Obs: tag + "version.hash", Msg: fmt.Sprintf("version %d hash %x want %x", v, h, rhash(vs.Root, 0, false))}
+		}
+		kvs := sortedKVs(vs.KV)
+		i := 0
+		bad := ""
+		_, err = it.Iterate(func(k, val []byte) bool {
+			if i >= len(kvs) || !bytes.Equal(k, kvs[i].K) || !bytes.Equal(val, kvs[i].V) {
+				bad = fmt.Sprintf("position %d key %q", i, k)
+				return true
+			}
+			i++
+			return false
+		})
+		if err != nil || bad != "" || i != len(kvs) {
+			return &Violation{Prop: prop, Obs: tag + "version.iterate", Msg: fmt.Sprintf("version %d iteration differs from the model (%s, %d of %d, %v)", v, bad, i, len(kvs), err)}
+		}
+		for j := 0; j < len(kvs); j += 97 {
+			g, err := it.Get(kvs[j].K)
+			_, w, err2 := it.GetWithIndex(kvs[j].K)
+			if err != nil || err2 != nil || !bytes.Equal(g, kvs[j].V) || !bytes.Equal(w, kvs[j].V) {
+				return &Violation{Prop: prop, Obs: tag + "version.get", Msg: fmt.Sprintf("version %d Get(%q)=%q GetWithIndex=%q want %q", v, kvs[j].K, g, w, kvs[j].V)}
+			}
+		}
+	}
+	lv, err := tr.GetLatestVersion()
+	if err != nil || lv != m.latest {
+		return &Violation{Prop: prop, Obs: tag + "versions.latest", Msg: fmt.Sprintf("GetLatestVersion=%d,%v want %d", lv, err, m.latest)}
 	}
 	return nil
 }
@@ -173,7 +213,7 @@ func crashOp(w *World, op Op) (v *Violation, st crashStats) {
 				}
 				continue
 			}
-			if interior && f7op && Open("F7") {
+			if interior && f7op && Open("F7") && f7Applies(pre, op) {
 				// known family: only the version being written / rolled back / deleted may be affected
 				if y := untouchedOK(ImageAt(base, journal, cut), pre, op, wv); y != nil {
 					y.Msg = tag + " " + y.Msg
@@ -187,6 +227,29 @@ func crashOp(w *World, op Op) (v *Violation, st crashStats) {
 		}
 	}
 	return nil, st
+}
+
+// f7Applies narrows the F7 signature for DeleteVersionsTo: deleteVersion removes the root key of a version that wrote
+// nodes FIRST (its orphan walk is pre-order and the root is always an orphan or gets re-keyed afterwards), so at every
+// interior cut such a version is either fully listed+readable or not listed at all. Only versions whose root entry is a
+// marker (reference to an earlier root = commit without changes, or empty tree) lose their nodes before their marker.
+func f7Applies(pre modelSnap, op Op) bool {
+	if op.Kind != "prune" {
+		return true
+	}
+	if os.Getenv("VERIF_F7_PRUNE_ALL") != "" {
+		return true
+	}
+	for v := pre.first; v <= op.N+1; v++ {
+		vs, ok := pre.vers[v]
+		if !ok {
+			continue
+		}
+		if vs.Root == nil || vs.Root.Version != v {
+			return true
+		}
+	}
+	return false
 }
 
 func checkCut(img *dbm.MemDB, skip bool, pre, post modelSnap, op Op, wops []Op, wv int64, tag string, opts []iavl.Option) (v *Violation) {
@@ -448,10 +511,19 @@ func runImportCrash(c ImportCrashCase) (v *Violation, cuts, jlen int) {
 			lv, err := tr.Load()
 			interior := cut > 0 && cut < len(journal)
 			if err != nil {
-				if interior && Open("F18") && len(nodes) >= 10000 {
-					continue // aborted multi-batch import: known (F18)
+				if !(interior && Open("F18") && len(nodes) >= 10000) {
+					return &Violation{Prop: "C05", Obs: "import.cut.load", Msg: fmt.Sprintf("crash after %d of %d physical writes of an import (%d nodes): Load() = %d,%v", cut, len(journal), len(nodes), lv, err)}, cuts, len(journal)
 				}
-				return &Violation{Prop: "C05", Obs: "import.cut.load", Msg: fmt.Sprintf("crash after %d of %d physical writes of an import (%d nodes): Load() = %d,%v", cut, len(journal), len(nodes), lv, err)}, cuts, len(journal)
+				// aborted multi-batch import: the failing Load() is known (F18); repeating the import must still work
+				tr2 := iavl.NewMutableTree(img, 0, skip, iavl.NewNopLogger())
+				if err := ImportAll(tr2, ver, nodes, c.Compress); err != nil {
+					return &Violation{Prop: "C05", Obs: "import.cut.retry", Msg: fmt.Sprintf("repeating the import after a crash at write %d of %d fails: %v", cut, len(journal), err)}, cuts, len(journal)
+				}
+				fr := iavl.NewMutableTree(img, 0, skip, iavl.NewNopLogger())
+				if l2, err := fr.Load(); err != nil || l2 != ver || !bytes.Equal(fr.Hash(), rhash(wroot, 0, false)) {
+					return &Violation{Prop: "C05", Obs: "import.cut.retry", Msg: fmt.Sprintf("after repeating the import Load() = %d,%v", l2, err)}, cuts, len(journal)
+				}
+				continue
 			}
 			state := pre
 			if lv == ver {
@@ -459,7 +531,14 @@ func runImportCrash(c ImportCrashCase) (v *Violation, cuts, jlen int) {
 			} else if lv != 0 {
 				return &Violation{Prop: "C05", Obs: "import.cut.mixture", Msg: fmt.Sprintf("after %d of %d writes Load() = %d", cut, len(journal), lv)}, cuts, len(journal)
 			}
-			if x := verifyState("C05", tr, img, skip, state, tag); x != nil {
+			big := len(nodes) >= 10000
+			var x *Violation
+			if big {
+				x = verifyStateLight("C05", tr, state, tag)
+			} else {
+				x = verifyState("C05", tr, img, skip, state, tag)
+			}
+			if x != nil {
 				x.Msg = fmt.Sprintf("crash after %d of %d physical writes of an import: %s", cut, len(journal), x.Msg)
 				return x, cuts, len(journal)
 			}
@@ -473,7 +552,12 @@ func runImportCrash(c ImportCrashCase) (v *Violation, cuts, jlen int) {
 				if l2, err := fr.Load(); err != nil || l2 != ver {
 					return &Violation{Prop: "C05", Obs: "import.cut.retry", Msg: fmt.Sprintf("after repeating the import Load() = %d,%v", l2, err)}, cuts, len(journal)
 				}
-				if x := verifyState("C05", fr, img, skip, post, tag+"retry."); x != nil {
+				if big {
+					x = verifyStateLight("C05", fr, post, tag+"retry.")
+				} else {
+					x = verifyState("C05", fr, img, skip, post, tag+"retry.")
+				}
+				if x != nil {
 					return x, cuts, len(journal)
 				}
 			}
@@ -487,7 +571,7 @@ func TestC05Import(t *testing.T) {
 		c := ImportCrashCase{Prop: "C05", Kind: "import_crash", Keys: rapid.IntRange(1, 60).Draw(rt, "keys"), Versions: rapid.IntRange(1, 3).Draw(rt, "versions"),
 			NoopLast: rapid.Bool().Draw(rt, "noopLast"), Compress: rapid.Bool().Draw(rt, "compress"), Skip: rapid.Bool().Draw(rt, "skip"),
 			Flush: rapid.SampledFrom([]int{150, 300, 1000, 100000}).Draw(rt, "flush")}
-		if rapid.IntRange(0, 40).Draw(rt, "big") == 0 && !Open("F18") {
+		if rapid.IntRange(0, 150).Draw(rt, "big") == 0 {
 			c.Keys = rapid.IntRange(5001, 5200).Draw(rt, "bigKeys")
 			c.Versions = 1
 		}
